@@ -224,6 +224,18 @@ pub fn run_c02(ctx: &mut Ctx, replay: Option<&[String]>) {
                 if j > 0 { h.insert(j, k + j - 1); }
             }
             (h, "staircase-heavy-rows")
+        } else if case % 40 == 27 {
+            // NOT a staircase: identity-like parity part (no sub-diagonal), dense rows over 280 ... 600 message bits -- the dense generator path
+            // with parities of 129 ... 600 message ones
+            let r = rng.range(2, 4);
+            let k = rng.range(280, 600);
+            let mut h = SparseMatrix::new(r, k + r);
+            for j in 0..r {
+                for c in 0..k { if j == 0 || rng.chance(4, 5) { h.insert(j, c); } }
+                h.insert(j, k + j);
+                if j + 1 < r && rng.chance(1, 2) { h.insert(j, k + j + 1); }
+            }
+            (h, "dense-encoder-heavy-rows")
         } else if case % 20 == 0 { gen_h(&mut rng, 1, maxn) } else { gen_h(&mut rng, maxr, maxn) };
         let k = h.num_cols() - h.num_rows();
         let mut msgs: Vec<Vec<bool>> = Vec::new();
@@ -313,6 +325,21 @@ pub fn run_c09(ctx: &mut Ctx, replay: Option<&[String]>) {
         let o = sys_res(&h);
         let tag2 = if o.starts_with("ok") { "result-ok" } else if o == "notfullrank" { "result-not-full-rank" } else { "result-other" };
         ctx.emit(&format!("c09 {}", sm(&h)), &o, h.num_rows() >= 2, &[fam, tag2]);
+    }
+    // few rows, 256 ... 700 columns, rows of weight exactly 255, 256, 257, 512 (after elimination too): a row weight or a count of ones must
+    // not be kept in 8 bits
+    for _ in 0..ctx.scale(16, 300) {
+        let r = rng.range(1, 3);
+        let n = rng.range(300, 700);
+        let mut h = SparseMatrix::new(r, n);
+        for i in 0..r {
+            let w = *rng.pick(&[255usize, 256, 256, 257, 512, 511]).min(&(n - r));
+            let start = rng.below(n - w + 1);
+            for c in start..start + w { h.insert(i, c); }
+            if rng.chance(1, 2) { h.toggle(i, i); }
+        }
+        let o = sys_res(&h);
+        ctx.emit(&format!("c09 {}", sm(&h)), &o, true, &["rows-of-weight-255..512", if o.starts_with("ok") { "result-ok" } else if o == "notfullrank" { "result-not-full-rank" } else { "result-other" }]);
     }
     // more than 2^16 columns, a few rows with scattered ones (column indices must not pass through a 16-bit type)
     for (r, n) in [(2usize, 65546usize), (3, 70000), (1, 65537), (2, 65536)] {
